@@ -30,6 +30,9 @@ type rec struct {
 	Counts map[string]int
 	Plain  bool           `json:",omitempty"`
 	Stale  map[string]any `json:",omitempty"`
+	// Alt : a second level of counts, PCR name -> number of reads (the merged_pcr map written
+	// by obiuniq -m pcr), for the runs with --sample pcr.  Only used by the history checks.
+	Alt map[string]int `json:",omitempty"`
 }
 
 func (r rec) total() int {
